@@ -103,7 +103,14 @@ def xrender(body, e):
 
 def upvar_exprs(prog, parent, closure_body):
     """dict upvar-name (without leading '*') -> expression in `parent` captured by `closure_body`."""
-    names = [n.lstrip("*") for n in closure_body.raw.get("upnames", [])]
+    names = []
+    for u in closure_body.raw.get("upnames", []):
+        n = u["n"] if isinstance(u, dict) else u
+        if isinstance(u, dict):
+            for pr in u.get("p", {}).get("pr", ()):
+                if pr["k"] == "field" and pr["n"].startswith("upvar:"):
+                    n = pr["n"].split(":", 1)[1]
+        names.append(n.lstrip("*"))
     for bi in sorted(parent.live):
         blk = parent.blocks[bi]
         for st in blk["stmts"]:
@@ -136,35 +143,6 @@ def ret_exprs(body):
 def not_of(e):
     """inner expression of `Not(e)`, else None"""
     return e[2] if e[0] == "un" and e[1] == "Not" else None
-
-
-def bool_closure_conjuncts(body, ignore=NOISE):
-    """For a closure whose value is a `&&` chain (lowered to nested switches that assign const false on every
-    early exit): the list of (cond_expr, required_label) that hold on every path to a `true` result, plus the
-    list of final (non-constant) result expressions.  Returns (conjuncts, finals, consts_true_sites)."""
-    ig = re.compile(ignore)
-    conj = []
-    finals = []
-    seen = set()
-    for site, e in ret_exprs(body):
-        leaves = _bool_leaves(body, e)
-        for lsite, le in leaves:
-            if le[0] == "const" and le[1] == 0:
-                continue
-            gs = body.guards_on_all_paths(lsite.bb)
-            for text, labels, _, cond in gs:
-                if ig.search(text):
-                    continue
-                key = (text, tuple(sorted(map(str, labels))))
-                if key in seen:
-                    continue
-                seen.add(key)
-                if len(labels) == 1:
-                    conj.append((cond, next(iter(labels))))
-            if le[0] == "const" and le[1] == 1:
-                continue
-            finals.append(le)
-    return conj, finals
 
 
 def _bool_leaves(body, e, depth=0, seen=None):
